@@ -12337,6 +12337,7 @@ func (p *parser) visitClass(nameScopeLoc logger.Loc, class *js_ast.Class, defaul
 			p.fnOnlyDataVisit = fnOnlyDataVisit{
 				isThisNested:           true,
 				isNewTargetAllowed:     true,
+				isNewTargetUndefined:   classLoweringInfo.lowerAllStaticFields,
 				isInStaticClassContext: true,
 				innerClassNameRef:      &result.innerClassNameRef,
 			}
